@@ -25,6 +25,7 @@ type Program struct {
 	condLocks map[string]string
 	guards    map[string]string
 	wkinds    map[string][]*waitKind
+	protos    map[string]*protoDecl
 }
 
 func pkgShort(path string) string {
